@@ -15,6 +15,22 @@ ALLOWED_AXIOMS: List[str] = []
 THEOREMS: Dict[str, str] = {
     "C02_tiling": "full",
     "C02_tiling_node": "full",
+    "C02_layout_refines_spec": "full",
+    "C02_exactly_once": "full",
+    "C02_drawn_nodup": "full",
+    "C02_geometry_table": "full",
+    "C02_geometry_step": "full",
+    "C02_geometry_header": "full",
+    "C02_geometry_untitled": "full",
+    "C02_geometry_leaf": "full",
+    "C02_example_geometry": "example",
+    "C02_borders": "full",
+    "C02_readback": "full",
+    "C02_canon_all_titled": "full",
+    "C02_example_readback": "example",
+    "C02_none_only_outputs": "full",
+    "C02_outputs_cell": "full",
+    "C02_example_spec": "example",
     "C02_example_wf": "example",
     "C02_example_table": "example",
 }
@@ -336,6 +352,31 @@ def malformed_trees(rng: random.Random) -> List[Any]:
     ]
 
 
+def search(seed: int, budget_s: float) -> List[Case]:
+    """Hunt for a tree on which the property text fails (used by the driver when a proof or the
+    correspondence is broken and no violating input is known yet); stops at the first few hits."""
+    import time
+    t0 = time.time()
+    rng = random.Random(seed * 104729 + 2)
+    out: List[Case] = []
+    hits = 0
+    budget = min(budget_s, 60.0)
+    for sk in G.exhaustive_skeletons(4, double_wrap_upto=3, refs_upto=2):
+        c = make_case(G.decorate(rng, sk))
+        if c.violation:
+            out.append(c)
+            hits += 1
+        if hits >= 3 or time.time() - t0 > budget / 2:
+            break
+    while hits < 3 and time.time() - t0 < budget:
+        for sk in G.random_skeletons(rng, 50):
+            c = make_case(G.decorate(rng, sk))
+            if c.violation:
+                out.append(c)
+                hits += 1
+    return out
+
+
 IMPORTS = ["From RG Require Import Model.Recipe Model.Table Model.Layout."]
 
 
@@ -354,8 +395,12 @@ def suites(tier: str, seed: int) -> List[Suite]:
                 show="show_layout", shard=150)
     ske = Suite(name="skeleton", imports=IMPORTS, in_ty="node", out_ty="ltree", check="check_skeleton",
                 show="ltree_of_node", shard=100)
+    spe = Suite(name="spec", imports=IMPORTS + ["From RG Require Import Spec.LayoutSpec."], in_ty="ltree",
+                out_ty="unit", check="check_spec",
+                show="(fun t => match recipe_tree_to_table t with Ok tb => Some (table_eqb tb (spec_table t)) | Err _ => None end)",
+                shard=400)
     if tier == "replay":
-        return [lay, ske]
+        return [lay, ske, spe]
     rng = random.Random(seed * 7919 + 2)
     seen = set()
     trees = []
@@ -378,4 +423,9 @@ def suites(tier: str, seed: int) -> List[Suite]:
     for t in trees[:: max(1, len(trees) // (150 if tier == "quick" else 1500))]:
         if G.n_nodes(G.skeleton_of(t)) <= 80:
             ske.cases.append(skeleton_case(t))
-    return [lay, ske]
+    # the specification (Spec/LayoutSpec.v) against the model on the same trees (theorem C02_layout_refines_spec
+    # proves this for all trees; evaluating it keeps the statement honest if the model is edited)
+    for c in lay.cases:
+        spe.cases.append(Case(input=c.input, coq_in=c.coq_in, coq_out="tt", impl=None, violation=None,
+                              nontrivial=c.nontrivial, tags=["spec"]))
+    return [lay, ske, spe]
